@@ -54,6 +54,8 @@ type reproCase struct {
 	Mirrors []reproMirror `json:"mirrors,omitempty"`
 	// contents.baseimage + lock file (repro_dims.go)
 	Base *reproBase `json:"base,omitempty"`
+	// the real GetRepositoryIndexes under an imposed completion order, against the model (repro_dims.go)
+	Collect *collectCase `json:"collect,omitempty"`
 }
 
 type reproSuite struct{}
@@ -125,6 +127,7 @@ func (reproSuite) Gen(r *Rng, i int, tier string) any {
 			c.Variants = append(c.Variants, v)
 		}
 	}
+	c.Collect = genCollect(r)
 	if tier == "thorough" {
 		for k := 0; k < 3; k++ {
 			v := base
@@ -140,6 +143,14 @@ func (reproSuite) Run(raw json.RawMessage) []Step {
 	if err := json.Unmarshal(raw, &c); err != nil {
 		panic(err)
 	}
+	steps := reproRunBuilds(c, raw)
+	if c.Collect != nil {
+		steps = append(steps, collectRun(c.Collect))
+	}
+	return steps
+}
+
+func reproRunBuilds(c reproCase, raw json.RawMessage) []Step {
 	work, err := os.MkdirTemp("", "verif-repro-")
 	if err != nil {
 		panic(err)
